@@ -61,8 +61,49 @@ def writers_report(ctx):
     return k
 
 
+def race_reports(ctx):
+    """Thorough tier: the list harness (overlapping downloads through refresh / add_url / set_url) runs under the
+    race detector.  Every distinct report is a finding of its own, named by the first frame inside /repo/internal of
+    each of the two accesses (harness frames excluded)."""
+    seen = {}
+    logs = 0
+    for p in sorted(glob.glob(os.path.join(ctx.workdir, "h*_s*", "go_test.log"))):
+        text = open(p, errors="replace").read()
+        logs += 1
+        if "WARNING: DATA RACE" not in text:
+            continue
+        for block in text.split("=================="):
+            if "WARNING: DATA RACE" not in block:
+                continue
+            frames = []
+            for part in re.split(r"\n\s*\n", block):
+                if not re.search(r"(?m)^\s*(?:Previous )?(?:[Ww]rite|[Rr]ead|[Aa]tomic \w+) at \S+ by ", part):
+                    continue
+                fr = None
+                for fn, f, l in re.findall(r"\n\s+(\S+)\(\)\n\s+(\S+):(\d+)", part):
+                    if "/internal/" in f and "zz_verif" not in f and "AdGuardHome" in fn:
+                        fr = "%s (internal/%s:%s)" % (fn.split("AdGuardHome/internal/")[-1], f.split("/internal/", 1)[1], l)
+                        break
+                frames.append(fr or "?")
+            key = tuple(sorted(frames[:2]))
+            seen.setdefault(key, (block.strip()[:4000], p))
+    k = 0
+    # one cause usually shows up as many pairs of program points: the first three are reported, the count is kept
+    for key, (block, p) in sorted(seen.items())[:3]:
+        k += 1
+        ctx.fail("property-failure",
+                 "data race between list downloads that overlap in time (race detector; %d distinct pairs of program points in this run): %s"
+                 % (len(seen), " / ".join(key)),
+                 finding_key="C14/list-download-race-" + re.sub(r"[^A-Za-z0-9]+", "-", "-".join(x.split(" ")[0] for x in key))[:80],
+                 failing_input_found=True,
+                 detail={"case": {"id": 9500 + k, "desc": {"race_report": block, "log": p,
+                                                           "scenario": "harness/filtering/zz_verif_C14lists_test.go, free-running overlap scenarios"}}})
+    return len(seen)
+
+
 def extra(ctx):
     ctx.extra_coverage["c14_writers_rejected"] = writers_report(ctx)
+    ctx.extra_coverage["c14_list_download_races"] = race_reports(ctx)
     # the strace parser is trusted: run its self-test (threads interleaved with unfinished/resumed lines, descriptor
     # reuse before a close is reported finished, short write + EFBIG, forked child) on every run
     rc, out = ctx.run(["python3", os.path.join(ctx.VERIF, "tools", "c14_straceparse.py"), "--selftest"], cwd=ctx.workdir, timeout=60)
